@@ -86,6 +86,12 @@ def src_wf(r, declares, label):
     return out
 
 
+def star_spelled_like_named(ins):
+    stars = {p[0] for d in ins for p in d['params'] if p[1] in ('VP', 'VK')}
+    named = {p[0] for d in ins for p in d['params'] if p[1] in ('PO', 'PK', 'KO')}
+    return bool(stars & named)
+
+
 def examine(c, i, al_rc):
     out = []
     if i[0] != 'ok':
@@ -98,6 +104,11 @@ def examine(c, i, al_rc):
     dec = declares_from(ins, extra)
     for item in src_wf(r, dec, c.show()):
         key, what = item[0], item[1]
+        if (key == 'C08:keys-missing' and c.op == 'embed' and len(ins) >= 3
+                and star_spelled_like_named(ins)):
+            # known finding (delimited class): an n-ary embed whose intermediate result has a
+            # star parameter spelled like one of its named parameters — the map is keyed by name
+            key = 'C08:embed-star-name-collision'
         if key == 'C08:dup':
             nm = item[2]
             lists = [d['srcs'].get(nm, []) for d in ins]
@@ -166,6 +177,17 @@ def gen(ctx):
             inner = rng.choice(U2cd)
             if rng.random() < 0.15:
                 inner = collide(rng, inner)
+            if rng.random() < 0.03:
+                # n-ary embed with a star spelled like a named parameter of an outer signature
+                o = rng.choice(U2)
+                onamed = [p[0] for p in o if p[1] in ('PO', 'PK', 'KO')]
+                if onamed:
+                    x = rng.choice(onamed)
+                    mid = [mk_param(x, 'VP'), mk_param(id_of_name('kwargs'), 'VK')] if rng.random() < 0.5 \
+                        else [mk_param(id_of_name('args'), 'VP'), mk_param(x, 'VK')]
+                    cases.append(Embed([mk_desc(o, 100), mk_desc(mid, 101), mk_desc(random_sig(rng, 'ef', 2), 102)],
+                                       True, True))
+                    continue
             cases.append(Embed([mk_desc(rng.choice(U2), 100), mk_desc(inner, 101)]
                                + ([mk_desc(random_sig(rng, 'ef', 2), 102)] if rng.random() < 0.3 else []),
                                rng.random() < 0.8, rng.random() < 0.8))
@@ -178,6 +200,10 @@ def gen(ctx):
         elif k < 0.85:
             ps = rng.choice(U3)
             names = [p[0] for p in ps if p[1] not in ('PO', 'VP', 'VK')] + [fz]
+            if any(p[1] == 'VK' for p in ps):
+                # a keyword spelled like *args is absorbed by **kwargs (a keyword-only parameter
+                # of that name, sourced to the partial object)
+                names += [p[0] for p in ps if p[1] == 'VP']
             ns = rng.sample(names, rng.randint(0, min(2, len(names))))
             cases.append(Partial(mk_desc(ps, 100), rng.randint(0, len(ps)), [(x, 5 + j) for j, x in enumerate(ns)]))
         else:
@@ -197,6 +223,9 @@ def second_stage(ctx, tr):
     inputs of further operations."""
     rng = ctx.rng('stage2')
     oks = [i[1] for c, m, i in tr if i[0] == 'ok' and i[1]['params']]
+    # only well-sourced results are inputs of further operations (a result that is itself
+    # reported, e.g. under a known finding, would make every later result malformed too)
+    oks = [d for d in oks if {p[0] for p in d['params']} == set(d['srcs']) and all(d['srcs'].values())]
     oks = [dict(params=d['params'], ret=d['ret'], uret=d['uret'], srcs=d['srcs'], deps=d['deps']) for d in oks]
     cases = []
     n = 6000 if ctx.quick else 80000
